@@ -1584,6 +1584,30 @@ class Interp:
             return a == b
         return sym.eq(a, b)
 
+    def abstract_key_find(self, d, k):
+        """the key of the concrete dictionary d that equals k, or None.  Concrete keys are looked up by value; an ABSTRACT key
+        (AbsStr, AbsVal: equality is a formula) is the very object already used as a key, or is compared with every abstract key
+        of the same kind by a BRANCH on the equality formula (both outcomes are explored)"""
+        ab = lambda x: type(x).__name__ in ('AbsStr', 'AbsVal', 'PaddedStr')
+        if not ab(k) and not any(ab(k2) for k2 in d):
+            try:
+                return k if k in d else None
+            except TypeError:
+                raise Unsupported('unhashable key')
+        for k2 in d:
+            if k2 is k:
+                return k2
+        for k2 in list(d):
+            if ab(k) and ab(k2) and type(k) is type(k2):
+                f = self.models.hook('compare', self, ast.Eq(), k, k2)
+                if f is None:
+                    raise Unsupported('dictionary keyed by abstract values that may be equal')
+                if f is True or (f is not False and self.ctx.branch(f)):
+                    return k2
+            elif (ab(k) and isinstance(k2, (str, bytes))) or (ab(k2) and isinstance(k, (str, bytes))):
+                raise Unsupported('abstract string looked up among concrete dictionary keys')
+        return None
+
     def contains(self, container, x):
         r = self.models.contains(self, container, x)
         if r is not None:
@@ -1591,7 +1615,7 @@ class Interp:
         if isinstance(container, dict):
             if is_sym(x):
                 raise Unsupported('symbolic dict key')
-            return x in container
+            return self.abstract_key_find(container, x) is not None
         if isinstance(container, (list, tuple, set, frozenset)):
             return sym.Or(*[self.equals(x, y) for y in container])
         if isinstance(container, str):
@@ -1755,6 +1779,9 @@ class Interp:
                     if not isinstance(k, str) and self.ctx.branch(sym.eq(idx, k)):
                         return obj[k]
                 raise PyExc('KeyError')
+            kk = self.abstract_key_find(obj, idx)
+            if kk is not None and kk is not idx:
+                return obj[kk]
             try:
                 if idx in obj:
                     return obj[idx]
@@ -1787,7 +1814,8 @@ class Interp:
         if isinstance(obj, dict):
             if is_sym(idx):
                 raise Unsupported('symbolic dict key store')
-            obj[idx] = v
+            kk = self.abstract_key_find(obj, idx)
+            obj[idx if kk is None else kk] = v
             return
         if isinstance(obj, Opaque):
             return
